@@ -56,7 +56,10 @@ def build_pool(seed, tier, n_corpus=None, n_synth=None, n_ops=None, want_values=
     return admitted, info
 
 
-def run_family(engine, engine_name, family, count, seed, pool, tier, limit=120):
+def run_family(engine, engine_name, family, count, seed, pool, tier, limit=None):
+    # wall limit of one run (a watchdog, not a budget: typical runs take 0.05-2 s; an exhaustive truncation
+    # sweep of a 6 KB message takes a minute on an idle core and several on a loaded machine)
+    limit = limit or (180 if tier == 'quick' else 900)
     """-> list of (plan, status, trace)"""
     if family.endswith('-each'):
         plans = [engine.gen_plan(family, core.derive_seed(seed, engine_name, family, i), pool, tier, index=i)
@@ -162,7 +165,7 @@ def check_main(prop, tier, engine, engine_name, families, level, rule, assumptio
             by_engine.setdefault(body['plan']['engine'], []).append((path, body))
         for en, group in sorted(by_engine.items()):
             eng = engine_module(en)
-            res = core.pmap(en, [b['plan'] for _p, b in group], limit=180)
+            res = core.pmap(en, [b['plan'] for _p, b in group], limit=600)
             for (path, body), (st, tr) in zip(group, res):
                 stats.evaluations += 1
                 stats.by_family['regress'] = stats.by_family.get('regress', 0) + 1
@@ -193,7 +196,7 @@ def check_main(prop, tier, engine, engine_name, families, level, rule, assumptio
         # determinism spot check inside every run: re-execute the first plans with another worker count;
         # the traces must be identical (a check whose runs do not replay is not believed)
         k = min(len(runs), 12 if tier == 'quick' else 60)
-        again = core.pmap(engine_name_f, [r[0] for r in runs[:k]], limit=180, njobs=4)
+        again = core.pmap(engine_name_f, [r[0] for r in runs[:k]], limit=900, njobs=4)
         for (plan0, st0, tr0), (st1, tr1) in zip(runs[:k], again):
             if st0 == 'ok' and st1 == 'ok':
                 stats.probe('runs_re_executed_identically' if core.sha(tr0) == core.sha(tr1) else 'runs_diverged')
